@@ -1666,8 +1666,13 @@ def c16_runner(prop, tier, seed, replay):
                             "point (should_yield forced), unfinished ones completed afterwards; plus interleavings of two fixed batches that "
                             "share pages (all 252 in the thorough tier); executed on the real generators and on the coroutine model "
                             "(Sched.v): replies, answers and raw bytes compared; final pages and link multigraph compared with the "
-                            "specification's sequential application; page-query answers sandwiched between the pages qualifying before and "
-                            "after and the pages existing at the end")
+                            "specification's sequential application; every query (page, network, page-link) compared with the "
+                            "uninterrupted query run on the real index at every moment from the query's first step to its last: nothing "
+                            "that qualified throughout (per clause / per sustaining page link) may be missing, nothing that qualified at no "
+                            "moment may be reported (known findings F10, F11 apart); scenario families: a rule installation against batches "
+                            "that touch its anchor node, a page-link query against writers that move its sources and targets, the F10/F11 "
+                            "witnesses and variants; and 2-3 read-only requests of any kind interleaved with each other, each of which must "
+                            "answer exactly what it answers alone")
     cov["fixed_pair_schedules"] = nsched
     cov["network_queries_outside_the_edge_sandwich_F10"] = len(f10)
     cov["pagelink_queries_with_a_link_of_no_moment_F11"] = len(f11)
